@@ -110,8 +110,29 @@ def gen_case(rng, stream):
     # ---- special shapes
     if stream == "special":
         k = rng.choice(["nodebt", "nocoll", "zero-debt-entry", "lt0", "oversized", "heavy-bonus", "cheap-debt", "price0", "dust-debt", "dust-coll",
-                        "capped-tie", "capped-tie"])
+                        "capped-tie", "capped-tie", "dust-left", "dust-left"])
         tag = k
+        if k == "dust-left" and len(collable) >= 2:
+            # the first step seizes the whole of the big collateral; a dust collateral (1e-8 .. 1e-14 of it) is left against the rest of
+            # the debts: the health factor lands in (0, 1e-6] in the MIDDLE of the loop, which has to go on (HF < 1, collateral left,
+            # debts not yet visited)
+            ca, cb = rng.sample(collable, 2)
+            dn = rng.sample([n for n in names], rng.choice([2, 2, 3]))
+            tk = {n: {"li": _idx(rng, False), "bi": _idx(rng, False), "p": _price(rng, False)} for n in dict.fromkeys([ca, cb] + dn)}
+            va = L.rnd_dec(rng, 3, 7, 6)
+            vb = va * D(rng.choice([1, 3, 7])) / D(10) ** rng.choice([8, 9, 10, 12, 14])
+            sup = []
+            for n, v in ((ca, va), (cb, vb)):
+                sup.append([n, str(D(format(v / D(tk[n]["p"]) / D(tk[n]["li"]), ".25e"))), True])
+            if rng.random() < 0.5:
+                sup.reverse()
+            wl = sum((F(D(b_)) * F(D(tk[n]["li"])) * F(D(tk[n]["p"])) * F(rp.loc[n].reserveLiquidationThreshold) for n, b_, _ in sup), F(0))
+            tot = wl / F(rng.randint(10, 40), 100)
+            dl2 = []
+            for n in dn:
+                bd = tot / len(dn) * F(rng.randint(95, 105), 100) / F(D(tk[n]["p"])) / F(D(tk[n]["bi"]))
+                dl2.append([n, str(D(format(D(bd.numerator) / D(bd.denominator), ".28e")))])
+            return Case(path, tk, sup, dl2, {ca: "7"}, {}), tag
         if k == "capped-tie":
             # one collateral worth its debt x (1 + bonus) to the last digit: capped-or-not and the scaled-down repayment are decided
             # by the 35-digit rounding (the inputs of `variable_delt < actual_debt_to_liquidate`)
